@@ -207,14 +207,11 @@ def advance (q : Quirks) : Nat → Nat → Sk → List Frame → Option Nat → 
         | .done, g :: outer' =>
           -- a nested fan-out ends its branch: its result goes into the enclosing join
           if q.nestedJoinAcksEarly then
-            let jo := getJoin js' g.jid
-            let jo := { jo with filled := insertNat g.idx jo.filled }
-            let js'' := setJoin js' jo
-            -- (the enclosing join may be complete now: it goes on first, then the nested join's events are released)
-            if jo.filled.length ≥ g.branches.toList.length then
-              let (acts, js3) := advance q fuel ev .done (g :: outer') none (setJoin js' { jo with filled := jo.filled.erase g.idx })
-              (acts.filter (fun a => a != .ackEv ev) ++ release ++ early, js3)
-            else (release ++ early, js'')
+            -- the enclosing join gets the result (it may complete, or finish a batch: that goes first) but holds
+            -- nothing for this slot; then the nested join's events are released
+            let (acts, js3) := advance q fuel ev .done (g :: outer') none js'
+            let js3 := js3.map (fun x => if x.jid == g.jid then { x with heldEv := x.heldEv.erase ev } else x)
+            (acts.filter (fun a => a != .ackEv ev) ++ release ++ early, js3)
           else
             -- crash-safe: the nested join's held events and replies stay held, by the enclosing join
             let jo := getJoin js' g.jid
@@ -290,8 +287,10 @@ def step (q : Quirks) (c : Cfg) (op : Op) (cut : Option Nat) : Option Cfg :=
         | .task _ | .taskFail =>
           if q.requestFromTimer then some (c.handler pre { v with timers := insertNat id v.timers } cut)
           else
+            -- crash-safe: the request is sent by the handler that accepts the event, before anything else it does
+            -- (the deferred handler is still armed, and has nothing left to do)
             let send : List Act := if m.redelivered then [] else [.pubReq id]
-            some (c.handler (pre ++ send) { v with pending := insertNat id v.pending } cut)
+            some (c.handler (send ++ pre) { v with pending := insertNat id v.pending, timers := insertNat id v.timers } cut)
         | .wait _ | .par _ _ _ => some (c.handler pre { v with timers := insertNat id v.timers } cut)
         | .step rest =>
           let (acts, js) := advance q (fuelOf c) id rest stack none v.joins
@@ -310,8 +309,10 @@ def step (q : Quirks) (c : Cfg) (op : Op) (cut : Option Nat) : Option Cfg :=
       | .visit todo stack _ =>
         match todo with
         | .task _ | .taskFail =>
-          let send : List Act := if m.redelivered then [] else [.pubReq id]
-          some (c.handler send { v with pending := insertNat id v.pending } cut)
+          if q.requestFromTimer then
+            let send : List Act := if m.redelivered then [] else [.pubReq id]
+            some (c.handler send { v with pending := insertNat id v.pending } cut)
+          else some (c.handler [] v cut)
         | .wait rest =>
           let (acts, js) := advance q (fuelOf c) id rest stack none v.joins
           some (c.handler acts { v with joins := js } cut)
